@@ -246,7 +246,7 @@ def execute(case):
         known = {f for i in inputs for f in i["files"]}
         allfiles = sorted(known)
 
-        def run(idx, cwd=".", spelling="rel", seed=None, env=None, tag=""):
+        def run(idx, cwd=".", spelling="rel", seed=None, env=None, tag="", extra_plan=()):
             sc.fresh_world(world)
             args = []
             for k in idx:
@@ -263,7 +263,7 @@ def execute(case):
                 args.append("$ROOT/" + r if spelling == "abs" else os.path.relpath(r, cwd))
             inv = {"argv": ["--color", "never"] + list(margs) + list(case["cli"]) + args, "cwd": cwd,
                    "hashseed": case["hashseed"] if seed is None else seed, "env": env or {},
-                   "plan": core.legal_perturbation(case["permseed"] // 3 + len(idx)) if len(idx) > 1 else []}
+                   "plan": list(extra_plan) + (core.legal_perturbation(case["permseed"] // 3 + len(idx)) if len(idx) > 1 else [])}
             res = core.run_inv(sc, inv)
             v.account(res, nontrivial=len(idx) > 1)
             ab = core.abnormal(res)
@@ -455,6 +455,16 @@ def execute(case):
             if pf != base_pf or res.exit != base_res.exit:
                 diff = sorted(f for f in set(pf) | set(base_pf) if pf.get(f) != base_pf.get(f))
                 v.add("C15:cwd-or-spelling|%s" % ("abs" if sp == "abs" else "cwd"), "cwd=%s spelling=%s: results differ for %s (exit %s vs %s); argv=%s" % (cwd, sp, diff[:3], res.status(), base_res.status(), argv))
+        if "--config-path" not in case["cli"]:
+            # inputs named absolutely from a working directory that cannot be named (removed after the shell entered
+            # it): nothing in the invocation is relative to it
+            res, pf, muts, argv = run(list(perms[0]), cwd=".", spelling="abs", extra_plan=["* getcwd 0 * errno %d" % [2, 13, 36][case["permseed"] % 3]])
+            v.planned("getcwd-errno")
+            if any(e.fault for e in res.events):
+                v.fired("getcwd-errno")
+            if pf != base_pf or res.exit != base_res.exit:
+                diff = sorted(f for f in set(pf) | set(base_pf) if pf.get(f) != base_pf.get(f))
+                v.add("C15:cwd-or-spelling|unnameable-cwd", "absolute inputs, getcwd fails: results differ for %s (exit %s vs %s); argv=%s" % (diff[:3], res.status(), base_res.status(), argv))
         penv = {"TERM": "xterm-256color", "LANG": "de_DE.UTF-8", "LC_ALL": "tr_TR.UTF-8", "NO_COLOR": "1", "COLUMNS": "40",
                 "TMPDIR": "$ROOT/nonexistent-tmp", "RUST_BACKTRACE": "1", "PWD": "/somewhere/else", "RUSTFMT": "/bin/false",
                 "CARGO": "/bin/false", "XDG_CONFIG_HOME": "$ROOT/none"}
